@@ -13,8 +13,8 @@ Require Import V.Model.PollThreads.
 Require Import V.Model.ClaimThreads.
 Require Import V.Oracle.C03Oracle.
 Require Import V.Proofs.FragArith.
-Require Import V.Proofs.ExclDefs V.Proofs.ExclRd2 V.Proofs.ExclSys.
-Require Import V.Proofs.ExclRace.
+Require Import V.Proofs.ExclDefs.
+Require Import V.Proofs.ExclRd2 V.Proofs.ExclSys V.Proofs.ExclRace.
 Open Scope Z_scope.
 
 Section Run.
